@@ -692,6 +692,81 @@ def main() -> int:
         w.end("vmx")
     except Exception as e:  # noqa
         problems.append(f"vmx: {e}")
+    # ---------------- ESXi envelope / keystore (C16)
+    try:
+        from dissect.hypervisor.util import envelope as m_env
+        ce = m_env.c_envelope
+        w.ns("envelope")
+        w.struct("EnvelopeFileHeader", ce.EnvelopeFileHeader, ["magic", "size", "version"])
+        w.struct("DataTransformAeadFooter", ce.DataTransformAeadFooter, ["data", "size", "version"])
+        w.struct("DataTransformCryptoFooter", ce.DataTransformCryptoFooter, ["padding"])
+        w.bytes("FILE_HEADER_MAGIC", get(m_env, "FILE_HEADER_MAGIC"))
+        w.bytes("PBKDF2_SALT", get(m_env, "PBKDF2_SALT"))
+        w.nat("ENVELOPE_BLOCK_SIZE", get(m_env, "ENVELOPE_BLOCK_SIZE"))
+        w.nat("DECRYPT_CHUNK_SIZE", get(m_env, "DECRYPT_CHUNK_SIZE"))
+        # ENVELOPE_ATTRIBUTE_TYPE_MAP, probed: (code, kind, width, signed); kind 0 = None, 1 = integer, 2 = IEEE float
+        rows = []
+        for k, t in m_env.ENVELOPE_ATTRIBUTE_TYPE_MAP.items():
+            if t is None:
+                rows.append((int(k), 0, 0, 0))
+                continue
+            width = len(t)
+            v = t(b"\xff" * width)
+            if isinstance(v, float):
+                rows.append((int(k), 2, width, 0))
+            else:
+                if t.dumps(v) != b"\xff" * width or t((1).to_bytes(width, "little")) != 1:
+                    problems.append(f"envelope type map {k}: not a little-endian integer")
+                rows.append((int(k), 1, width, 1 if int(v) < 0 else 0))
+        w.raw("def ATTR_TYPE_MAP : List (Nat × Nat × Nat × Nat) := [" + ", ".join(f"({a}, {b}, {c}, {d})" for a, b, c, d in rows) + "]")
+        w.fp["envelope.ATTR_TYPE_MAP"] = rows
+        for nm in ("Invalid", "String", "Bytes"):
+            w.nat(f"AttributeType_{nm}", int(getattr(ce.AttributeType, nm)))
+        w.nat("AttributeType_width", len(ce.AttributeType))
+
+        def lits(mod, qn, pfx):
+            """the SET of non-zero int / str / bytes constants a function body uses (sorted, unique): literals, and module-level
+            constants referred to by name (so `4096` and `ENVELOPE_BLOCK_SIZE` are the same thing); docstrings and anything
+            inside a `raise` statement are not behaviour and are left out. The model picks its constants out of these sets
+            (`pick`), so reordering / adding literals in a harmless rewrite does not disturb it."""
+            import textwrap
+            obj = mod
+            for part in qn.split("."):
+                obj = getattr(obj, part)
+            tree = ast.parse(textwrap.dedent(inspect.getsource(obj)))
+            fn = tree.body[0]
+            if ast.get_docstring(fn) is not None:
+                fn.body = fn.body[1:]
+            found = []
+
+            def walk(n):
+                if isinstance(n, ast.Raise):
+                    return
+                if isinstance(n, ast.Constant) and isinstance(n.value, (int, bytes, str)) and not isinstance(n.value, bool):
+                    found.append(n.value)
+                if isinstance(n, ast.Name) and isinstance(getattr(mod, n.id, None), (int, bytes, str)) and not isinstance(getattr(mod, n.id), bool):
+                    found.append(getattr(mod, n.id))
+                for ch in ast.iter_child_nodes(n):
+                    walk(ch)
+            for st_ in fn.body:
+                walk(st_)
+            w.natlist(pfx + "_ints", sorted({v for v in found if isinstance(v, int) and v != 0}))
+            ss = sorted({v for v in found if isinstance(v, str)})
+            w.strlist(pfx + "_strs", ss)
+            bs = sorted({v for v in found if isinstance(v, bytes)})
+            w.raw(f"def {pfx}_bytes : List (List UInt8) := [" + ", ".join(lean_bytes(b) for b in bs) + "]")
+            w.fp[f"envelope.{pfx}_bytes"] = [b.hex() for b in bs]
+            w.raw(f"def {pfx}_utf8 : List (List UInt8) := [" + ", ".join(lean_bytes(x.encode()) for x in ss) + "]")
+        lits(m_env, "Envelope.__init__", "init")
+        lits(m_env, "Envelope.decrypt", "decrypt")
+        lits(m_env, "KeyStore.__init__", "ks_init")
+        lits(m_env, "KeyStore.from_text", "ks_from_text")
+        lits(m_env, "_read_envelope_attributes", "read_attrs")
+        lits(m_env, "_pack_envelope_header", "pack_header")
+        lits(m_env, "_pack_attributes", "pack_attrs")
+        w.end("envelope")
+    except Exception as e:  # noqa
+        problems.append(f"envelope: {type(e).__name__}: {e}")
 
     extra = HERE / "extract_more.py"
     if extra.exists():
